@@ -1030,7 +1030,11 @@ def _decorate_new_with_invariants(new_func: CallableT) -> CallableT:
 
         # If the class of the instance defines ``__init__``, the instance is not constructed yet and
         # the invariants are checked after ``__init__``.
-        if type(instance).__init__ is object.__init__:
+        #
+        # ``__new__`` may also return an object of another class (which has no invariants to check).
+        if type(instance).__init__ is object.__init__ and hasattr(
+            type(instance), "__invariants__"
+        ):
             for invariant in instance.__class__.__invariants__:
                 _assert_invariant(contract=invariant, instance=instance)
 
